@@ -27,6 +27,7 @@ package main
 
 import (
 	"bufio"
+	"bytes"
 	"crypto/rand"
 	"errors"
 	"fmt"
@@ -39,7 +40,7 @@ import (
 )
 
 func init() {
-	components["wswrite"] = &component{gen: wswriteGen, enum: wswriteEnum, run: wswriteRun}
+	components["wswrite"] = &component{gen: wswriteGen, enum: wswriteEnum, run: wswriteRun, direct: wswriteDirect}
 }
 
 // ---- generator -----------------------------------------------------------------------------------
@@ -385,4 +386,125 @@ func wswJoinOr(xs []string) string {
 		return "-"
 	}
 	return strings.Join(xs, ",")
+}
+
+// wswriteDirect: blocking writes on a transport that fails once (the model and the wire monitor are stated for a transport
+// that accepts every write). After the failure the application goes on using the stream; once a Flush has succeeded, the wire
+// must hold the submitted frames — each masked, well-formed, with the caller's bytes — in submission order and nothing
+// else. A frame whose write failed may be on the wire or not; it being there twice is reported under its own key.
+func wswriteDirect(seed uint64, tier string, args []string, w *bufio.Writer) {
+	trials := 600
+	if tier == "thorough" {
+		trials = 8000
+	}
+	r := newRng(seed*7919 + 11)
+	if wswriteIO == nil {
+		wswriteIO = sonic.MustIO()
+	}
+	seen := map[string]bool{}
+	fails := 0
+	report := func(key, format string, a ...any) {
+		if seen[key] {
+			return
+		}
+		seen[key] = true
+		fails++
+		fmt.Fprintf(w, "DIRECT-FAIL key=wswrite.%s %s\n", key, fmt.Sprintf(format, a...))
+	}
+	type sub struct {
+		fin     bool
+		op      int
+		payload []byte
+	}
+	for t := 0; t < trials; t++ {
+		func() {
+			defer func() {
+				if p := recover(); p != nil {
+					report("panic", "a stream used after a failed blocking write panicked: %v", p)
+				}
+			}()
+			s, err := websocket.NewWebsocketStream(wswriteIO, nil, websocket.RoleClient)
+			if err != nil {
+				return
+			}
+			ms := newMemStream()
+			if err := s.VerifAttach(ms); err != nil {
+				return
+			}
+			var subs []sub
+			var trace []string
+			nops := 3 + r.intn(6)
+			failAt := r.intn(nops)
+			failed := -1 // index in subs of the frame whose write failed
+			for i := 0; i < nops; i++ {
+				if i == failAt {
+					ms.writeErr = errInjected
+				}
+				before := len(subs)
+				var e error
+				switch r.intn(5) {
+				case 0, 1:
+					p := r.bytes(r.pick(0, 1, 5, 125, 126, 300))
+					ty := websocket.TypeText
+					if r.intn(2) == 0 {
+						ty = websocket.TypeBinary
+					}
+					subs = append(subs, sub{true, int(ty), p})
+					e = s.Write(p, ty)
+					trace = append(trace, fmt.Sprintf("Write(%d bytes)=%v", len(p), e))
+				case 2, 3:
+					f := s.AcquireFrame()
+					op := r.pick(9, 10, 1, 2)
+					p := r.bytes(r.pick(0, 2, 7, 125))
+					f.SetFIN().SetOpcode(websocket.Opcode(op)).SetPayload(p)
+					subs = append(subs, sub{true, op, p})
+					e = s.WriteFrame(f)
+					trace = append(trace, fmt.Sprintf("WriteFrame(op %d, %d bytes)=%v", op, len(p), e))
+				default:
+					e = s.Flush()
+					trace = append(trace, fmt.Sprintf("Flush()=%v", e))
+				}
+				if e != nil && failed < 0 && len(subs) > 0 {
+					failed = before
+					if failed >= len(subs) {
+						failed = len(subs) - 1
+					}
+				}
+			}
+			var ferr error
+			for i := 0; i < 3; i++ {
+				if ferr = s.Flush(); ferr == nil {
+					break
+				}
+			}
+			if ferr != nil || s.Pending() != 0 {
+				report("after-failed-write", "Flush keeps failing on a transport that failed once (%v, pending %d) after %v", ferr, s.Pending(), trace)
+				return
+			}
+			frames, rest := wsParseWire(ms.out)
+			if len(rest) != 0 {
+				report("after-failed-write", "%d bytes on the wire form no frame after %v", len(rest), trace)
+				return
+			}
+			i := 0
+			for k, f := range frames {
+				same := func(j int) bool {
+					return j >= 0 && j < len(subs) && f.masked && f.rsv == 0 && f.fin == subs[j].fin && f.op == subs[j].op && bytes.Equal(f.payload, subs[j].payload)
+				}
+				switch {
+				case same(i):
+					i++
+				case i > 0 && same(i-1):
+					report("frame-sent-twice-after-failed-write", "frame %d of the wire repeats submission %d (sequence: %v)", k, i-1, trace)
+				default:
+					report("after-failed-write", "frame %d of the wire (fin=%v op=%d masked=%v, %d bytes) is not submission %d after %v", k, f.fin, f.op, f.masked, len(f.payload), i, trace)
+					return
+				}
+			}
+			if i != len(subs) {
+				report("after-failed-write", "%d of %d submitted frames are on the wire after a successful Flush (%v)", i, len(subs), trace)
+			}
+		}()
+	}
+	fmt.Fprintf(w, "DIRECT-STAT {\"wswrite_failed_write_trials\": %d, \"wswrite_failed_write_keys\": %d}\n", trials, fails)
 }
